@@ -175,6 +175,7 @@ def run(ctx, model):
     kernels.run_multi(ctx, model, "C13")
     from props import logixdrv
     logixdrv.run_altered(ctx, model, "C13")
+    logixdrv.run_reupload_pair(ctx, model, "C13")
     from props import slcdrv
     slcdrv.run_altered(ctx, model, n=ctx.budget(15, 150))
     if transcripts is not None:
